@@ -5,7 +5,7 @@
         -> "tree <status> <canonical dump of the WBXMLTree built by wbxml_tree_from_wbxml> | xml <status> <hex of the bytes wbxml_tree_to_xml returned>"
            (the tree is dumped BEFORE wbxml_tree_to_xml runs: the encoder strips text nodes in place)
      x2w <xml hex> <keep_ws 0|1>
-        -> "wbxml <status> <hex>"        (corpus .xml files are turned into WBXML through the public converter)
+        -> "wbxml <status> <hex> <langID of the XML tree>"   (corpus .xml files are turned into WBXML through the public converter)
 
    Canonical tree dump (prefix form, single spaces, counts instead of brackets):
      tree  := "L" <langID or -1> <n roots> node*
@@ -123,8 +123,13 @@ int main(void) {
                 e = wbxml_conv_xml2wbxml_run(conv, d, (WB_ULONG) n, &out, &ol);
                 wbxml_conv_xml2wbxml_destroy(conv);
             }
-            if (e != WBXML_OK) printf("wbxml ERR%d -\n", (int) e);
-            else { printf("wbxml OK "); vh_puthex(stdout, out, ol); printf("\n"); }
+            if (e != WBXML_OK) printf("wbxml ERR%d - 0\n", (int) e);
+            else {
+                /* the language the XML tree builder recognised (needed to force it when the WBXML public id is 'unknown') */
+                WBXMLTree *xt = NULL; int lid = 0;
+                if (wbxml_tree_from_xml(d, (WB_ULONG) n, &xt) == WBXML_OK && xt) { lid = xt->lang ? (int) xt->lang->langID : 0; wbxml_tree_destroy(xt); }
+                printf("wbxml OK "); vh_puthex(stdout, out, ol); printf(" %d\n", lid);
+            }
             if (out) wbxml_free(out);
             free(d);
         }
